@@ -10,6 +10,8 @@ constexpr int vf_deg_index(int d) { return (d >= 0 && d <= 360) ? d : ((d % 360)
 constexpr bool pre_tab361(uint16_t i) { return i <= 360; }
 inline bool post_sin_aprox(int d, fixed_t r) { return r == sin_angle_tab(uint16_t(vf_deg_index(d))); }
 inline bool post_cos_aprox(int d, fixed_t r) { return r == cos_angle_tab(uint16_t(vf_deg_index(d))); }
+// atan_index_aprox returns a multiple of 0.5 in [-128, 128] (index units of pi/128)
+constexpr bool post_atan_index(fixed_t, fixed_t r) { return r.v % 32768 == 0 && r.v >= -128 * 65536 && r.v <= 128 * 65536; }
 constexpr bool post_sqrt_aprox(fixed_t x, fixed_t r) { return x.v < 0 ? vf_isnan(r) : x.v == 0 ? r.v == 0 : (r.v >= 0 && vf_finite(r)); }
 }
 }
